@@ -26,8 +26,7 @@ def e1(ctx, invariants_cfg=None, witnesses=WITNESSES):
     ctx.model_check("MCDrfChannel", "MCDrfChannel_quick.cfg" if q else "MCDrfChannel_thorough.cfg", coverage=False,
                     timeout=ctx.pick(600, 7200))
     ctx.model_check("MCDrfChannel", "MCDrfChannel_cov.cfg", required_actions=ACTIONS, tag="cov")
-    for w in witnesses:
-        ctx.model_check("MCDrfChannel", "MCDrfChannel_W_%s.cfg" % w, expect_violated=("W_" + w,), coverage=False, tag="W_" + w)
+    ctx.witnesses("MCDrfChannel", "MCDrfChannel_W_%s.cfg", list(witnesses))
 
 
 def relevance(prefixes):
